@@ -365,7 +365,8 @@ class C13(Check):
             "(nest2), three-level chains (quick: 9 representative shapes; thorough: 22), each through the four translation paths, over the full box "
             "{-2,1,3,1/2}^vars x {True,False}^boolean vars; 7 variable-name alphabets (case, prefixes, "
             "digits, underscores) under non-symmetric shapes; negative int / float / numpy constants "
-            "in every operand role; compile() additionally with every "
+            "in every operand role (-0.0 included); sums, products, bitwise nodes, calls and subscripts "
+            "with 65 / 100 / 150 (thorough 33..200) operands each of which changes the value; compile() additionally with every "
             "ordered selection of listed variables (thorough, <=3 free variables) given as names "
             "and Variables, and a pickle round trip under protocols 2..5. Non-trivial = the "
             "reference yields a value in some environment; distinct = distinct trees.")
@@ -405,10 +406,24 @@ class C13(Check):
                       ("FloorDiv", ("Sum", T(a, C(10))), ("Sum", T(b, c)))):
                 yield ("t", t)
 
+    def gen_wide(self, tier):
+        """n-ary nodes with many operands, every one of which changes the value if it is lost."""
+        x = V("x")
+        for n in ((65, 100, 150) if tier == "quick" else (33, 64, 65, 100, 128, 129, 150, 200)):
+            pw = [C(2 ** i) for i in range(n)]
+            yield ("t", ("Sum", T(x, *pw)))
+            yield ("t", ("Sum", T(*pw, x)))
+            yield ("t", ("Product", T(x, *[C(2)] * n)))
+            yield ("t", ("Product", T(*[C(2)] * n, x)))
+            yield ("t", ("BitwiseOr", T(*pw, x)))
+            yield ("t", ("BitwiseXor", T(x, *pw)))
+            yield ("t", ("Call", V("f"), T(*[C(i) for i in range(n)])))
+            yield ("t", ("Subscript", V("arr"), T(*[C(i % 3) for i in range(n)])))
+
     def gen_negconsts(self):
         x = V("x")
-        for c in (C(-1), C(-2), C(-1.5), C(-0.5), C(-2.0)):
-            for t in (("Power", c, x), ("Power", c, C(2)), ("Power", x, c),
+        for c in (C(-1), C(-2), C(-1.5), C(-0.5), C(-2.0), C(-0.0)):
+            for t in (("Power", c, x), ("Power", c, C(2)), ("Power", c, C(0)), ("Power", x, c),
                       ("Power", ("Power", c, x), C(2)), ("Product", T(c, x)),
                       ("Quotient", c, x), ("Quotient", x, c), ("Sum", T(x, c)),
                       ("Sum", T(c, ("Power", c, x))), ("FloorDiv", c, x), ("Remainder", c, x),
@@ -439,6 +454,7 @@ class C13(Check):
                 gen.TYPED_TWINS, V("x"), V("y")) if well_typed(s) and no_cse(s))),
             ("variable-names", self.gen_names),
             ("negative-constants", self.gen_negconsts),
+            ("wide", lambda: self.gen_wide(tier)),
             ("hash-twins", lambda: (("t", s) for s in gen.twin_trees()
                                     if well_typed(s) and no_cse(s))),
             ("bushy", lambda: (("t", s) for s in self.gen_bushy(tier) if well_typed(s))),
@@ -492,7 +508,13 @@ class C13(Check):
             def fails(s, path=path):
                 f = check_paths(s, tier, None, only=path).get(path)
                 return f[0] if f else None
-            locs = localise(spec, fails)
+            n_nodes = sum(1 for _ in walk(spec))
+            if n_nodes > 60:
+                # a wide tree: shrinking it operand by operand is quadratic in full checks; the
+                # tree is its own witness and is named by its shape
+                locs = [(k, f"{k}|wide {spec[0]} with {n_nodes} nodes", spec)]
+            else:
+                locs = localise(spec, fails)
             if not locs:
                 locs = [(k, f"{k}|{show(spec)}", spec)]
             for kk, sig, m in locs:
